@@ -39,6 +39,8 @@ def _one(job):
     var, pid = job
     if var.get("patch"):
         return _one_patch(var, pid)
+    if var.get("edits"):
+        return _one_multi(var, pid)
     src = os.path.join(REPO, var["path"])
     try:
         text = open(src).read()
@@ -70,6 +72,48 @@ def _one(job):
         return (var["id"], pid, "false-alarm", "exit %d on a behaviour-preserving rewrite; tail: %s" % (r.returncode, (out + r.stderr)[-400:].replace("\n", " | ")))
     except subprocess.TimeoutExpired:
         return (var["id"], pid, "error", "timeout")
+    finally:
+        shutil.rmtree(tmp, ignore_errors=True)
+
+
+def _one_multi(var, pid):
+    """Several textual edits (possibly in several files, docs included) applied together."""
+    texts = {}
+    for ed in var["edits"]:
+        path, old, new = ed[0], ed[1], ed[2]
+        allocc = len(ed) > 3 and ed[3]
+        src = os.path.join(REPO, path)
+        if path not in texts:
+            try:
+                texts[path] = open(src).read()
+            except OSError:
+                return (var["id"], pid, "skipped", "file missing")
+        if texts[path].count(old) == 0 or (texts[path].count(old) != 1 and not allocc):
+            return (var["id"], pid, "skipped", "anchor text of %s occurs %d times" % (path, texts[path].count(old)))
+        texts[path] = texts[path].replace(old, new)
+    for path, t in texts.items():
+        if path.endswith(".py"):
+            try:
+                compile(t, path, "exec")
+            except SyntaxError as e:
+                return (var["id"], pid, "error", "variant does not compile: %s" % e)
+    tmp = tempfile.mkdtemp(prefix="dfvself_")
+    try:
+        shutil.copytree(os.path.join(REPO, "dfols"), os.path.join(tmp, "dfols"), ignore=shutil.ignore_patterns("__pycache__", "tests"))
+        shutil.copytree(os.path.join(REPO, "docs"), os.path.join(tmp, "docs"), ignore=shutil.ignore_patterns("build", "*.png", "*.html"))
+        for path, t in texts.items():
+            with open(os.path.join(tmp, path), "w") as fh:
+                fh.write(t)
+        env = dict(os.environ, DFV_NO_EVIDENCE="1")
+        r = subprocess.run([sys.executable, "-m", "dfv", "check", pid, "--root", tmp, "--no-evidence"], cwd=VERIF, capture_output=True, text=True, env=env, timeout=600)
+        out = r.stdout
+        if var["kind"] == "FIRE":
+            if r.returncode == 1 and "VIOLATION" in out and (not var["expect"] or any(e in out for e in var["expect"].split("|"))):
+                return (var["id"], pid, "fired", "")
+            return (var["id"], pid, "missed", "exit %d; tail: %s" % (r.returncode, out[-300:].replace("\n", " | ")))
+        if r.returncode == 0 and "VIOLATION" not in out:
+            return (var["id"], pid, "silent", "")
+        return (var["id"], pid, "false-alarm", "exit %d on a behaviour-preserving rewrite; tail: %s" % (r.returncode, (out + r.stderr)[-400:].replace("\n", " | ")))
     finally:
         shutil.rmtree(tmp, ignore_errors=True)
 
